@@ -4,6 +4,7 @@ import Model.Field
 import Model.Wire
 import Model.Codec
 import Model.Transcript
+import Model.Batch
 open Model Model.Wire
 
 /-- build the statement-side instance from generator basis ids -/
@@ -82,6 +83,27 @@ def cmdRecover (m : List (String × String)) : Option String := do
   let mask := (List.range t).map (recoverMask N (listFn alpha) (listFn d) (listFn eta) (rowsFn dL) (rowsFn dR) y z es e (listFn d1))
   pure s!"mask={strOfScalars mask}"
 
+def parseMember (s : String) : Option Batch.Member :=
+  match (s.splitOn ",").mapM String.toNat? with
+  | some [n, t, m, ped, d1, rounds, fit, pts, valid, seeded] =>
+    some { n := n, t := t, m := m, ped := ped, d1 := d1, rounds := rounds, promisesFit := fit != 0,
+           pointsOk := pts != 0, valid := valid != 0, seeded := seeded != 0 }
+  | _ => none
+
+def cmdBatch (m : List (String × String)) : Option String := do
+  let c ← (← get m "c").toNat?
+  let a ← match (← get m "action") with
+    | "verifyOnly" => some Batch.Action.verifyOnly
+    | "recoverAndVerify" => some Batch.Action.recoverAndVerify
+    | "recoverOnly" => some Batch.Action.recoverOnly
+    | _ => none
+  let nT ← (← get m "nT").toNat?
+  let nP ← (← get m "nP").toNat?
+  let ms ← (splitOn' (← get m "members") "/").mapM parseMember
+  match Batch.verifyBatch c a nT nP ms with
+  | none => pure "err"
+  | some r => pure s!"ok masks={if r.isEmpty then "-" else String.ofList (r.map (fun b => if b then '1' else '0'))}"
+
 def step (line : String) : String :=
   let line := line.trimAscii.toString
   match line.splitOn " " with
@@ -91,6 +113,7 @@ def step (line : String) : String :=
       | "prove" => cmdProve m
       | "verify" => cmdVerify m
       | "recover" => cmdRecover m
+      | "batch" => cmdBatch m
       | _ => none
     match r with
     | some s => s
